@@ -45,11 +45,14 @@ const (
 	c16DefaultRemote = "192.0.2.10:4711"
 	c16KnownOrigins  = "WhitelistedOrigins lost on a snapshot-fed replica"
 
+	// (CaptchaURL: a value that net/url does not parse -- no captcha is required in this configuration, the value is
+	// only carried; an update is judged by the TOML decoder alone.)
 	// (UnknownSetting: a key this version does not know -- a typo, or a setting of a newer version -- is
 	// ignored by the TOML decoder; an update carrying it is accepted like any other and must take effect)
 	c16TomlA = `SessionExpiration = "30m"
 PostMessageCooloff = "0s"
 UnknownSetting = 1
+CaptchaURL = "192.0.2.10:8443/"
 MaxSessions = 5
 MaxChannels = 2
 [IRC]
@@ -99,6 +102,7 @@ func c16ModelA() config.Network {
 		SessionExpiration:  config.Duration(30 * time.Minute),
 		PostMessageCooloff: 0,
 		TrustedBridges:     map[string]string{"bridgekeya": "bridge-a"},
+		CaptchaURL:         "192.0.2.10:8443/",
 		MaxSessions:        5,
 		MaxChannels:        2,
 		Banned:             map[string]string{},
